@@ -81,7 +81,14 @@ def check_frames(frames, payload, prev_seq, pgn, src, dest, prio, tag):
     return out, seq
 
 
-def one_message(ctx, enc, holder, dec, fmt, pgn, payload, prev_seq, src=7, dest=255, prio=3, stub=True):
+def preload(dec, n):
+    """n abandoned partial messages (first frame only) on n other streams of this decoder."""
+    for j in range(n):
+        i = wire.ident(126720, j % 250, 10 + j // 250, 3)
+        dec.decode_tcp(wire.ebyte(i, bytes([(j % 8) << 5, 20, 1, 2, 3, 4, 5, 6])))
+
+
+def one_message(ctx, enc, holder, dec, fmt, pgn, payload, prev_seq, src=7, dest=255, prio=3, stub=True, warp=0):
     """Encode one stubbed message, validate frames, decode them. -> (discrepancies, seq)"""
     holder["payload"] = payload
     if ((pgn >> 8) & 0xFF) >= 240:
@@ -94,6 +101,9 @@ def one_message(ctx, enc, holder, dec, fmt, pgn, payload, prev_seq, src=7, dest=
     out = [(b, w, case) for b, w in res]
     got = []
     for i, p in enumerate(pk):
+        if i and warp:
+            from ..common import CLOCK
+            CLOCK.warp(warp)
         try:
             r = feed(dec, fmt, p)
         except Exception as e:
@@ -153,13 +163,19 @@ def _grid(ctx: Ctx, item):
                     holder = {}
                     enc = fp.stub_encoder(NMEA2000Encoder(), holder)
                     dec = NMEA2000Decoder()
+                    warp = 0
+                    if k == 7 and fmt == "ebyte" and fi == 0 and n % 16 == 5:
+                        # the receiving decoder is not fresh: abandoned partial messages of other streams, time passing between frames
+                        preload(dec, [255, 256, 257, 1023, 1024, 1025, 2047, 2048, 300, 4100, 64, 65, 511, 512][(n // 16) % 14])
+                        warp = [0, 2.0, 0, 90.0][(n // 16) % 4]
+                        ctx.klass("grid_decoder_with_history")
                     prev = None
                     # reach counter state k by encoding k messages first (through the public API)
                     for j in range(k):
                         holder["payload"] = b"\x01"
                         _, fr = frames_of(enc, fmt, fp.prop_message(pgn, 7, 255, 3))
                         prev = fr[0][1][0] >> 5
-                    res, _ = one_message(ctx, enc, holder, dec, fmt, pgn, payload, prev)
+                    res, _ = one_message(ctx, enc, holder, dec, fmt, pgn, payload, prev, warp=warp)
                     ctx.count()
                     if boundary(n) or k >= 6:
                         ctx.nontrivial_extra += 1
@@ -232,11 +248,14 @@ def _lists(ctx: Ctx, item):
         pgn = draw(st.sampled_from(fp.PROP_PGNS))
         return pgn, [draw(lens.flatmap(lambda L: fp.payload(pgn, L, L))) for _ in range(n)]
 
-    def check(pm, fmt):
+    def check(pm, fmt, hist, warp):
         pgn, payloads = pm
         holder = {}
         enc = fp.stub_encoder(NMEA2000Encoder(), holder)
         dec = NMEA2000Decoder()
+        preload(dec, hist)
+        if hist or warp:
+            ctx.klass("list_decoder_with_history_or_warp")
         prev = None
         out = []
         ctx.count()
@@ -246,13 +265,14 @@ def _lists(ctx: Ctx, item):
         else:
             ctx.klass("list_short")
         for i, p in enumerate(payloads):
-            res, prev = one_message(ctx, enc, holder, dec, fmt, pgn, p, prev)
+            res, prev = one_message(ctx, enc, holder, dec, fmt, pgn, p, prev, warp=warp)
             for b, w, c in res:
-                c = dict(c, list_hex=[x.hex() for x in payloads], index=i)
+                c = dict(c, list_hex=[x.hex() for x in payloads], index=i, history=hist, warp=warp)
                 out.append((b + "|list", w, c))
         return out
 
-    ctx.hyp(check, msgs(), st.sampled_from(FORMATS), max_examples=n_hyp, name="lists")
+    ctx.hyp(check, msgs(), st.sampled_from(FORMATS), st.sampled_from([0, 0, 0, 7, 255, 256, 1023, 1024, 1025]), st.sampled_from([0, 0, 1.5, 600.0]),
+            max_examples=n_hyp, name="lists")
 
 
 def run(ctx: Ctx):
@@ -297,7 +317,8 @@ def replay(ctx: Ctx, case):
             prev = fr[0][1][0] >> 5
         res, _ = one_message(ctx, enc, holder, dec, fmt, pgn, bytes.fromhex(case["payload_hex"]), prev)
         return res
+    preload(dec, case.get("history", 0))
     for p in payloads:
-        res, prev = one_message(ctx, enc, holder, dec, fmt, pgn, p, prev)
+        res, prev = one_message(ctx, enc, holder, dec, fmt, pgn, p, prev, warp=case.get("warp", 0))
         out += [(b + "|list", w, c) for b, w, c in res]
     return out
